@@ -1,5 +1,6 @@
 CONSTANT Shapes = {122, 222, 321}
 CONSTANT UseFile = FALSE
+CONSTANT BSPick = 0
 SPECIFICATION Spec
 INVARIANT MinNormSound
 INVARIANT ObviousStationary
